@@ -33,6 +33,7 @@
 #include <optional>
 #include <set>
 #include <stdexcept>
+#include <thread>
 
 using namespace hgraph;
 using namespace hgv;
@@ -47,13 +48,28 @@ namespace
     std::map<std::int64_t, std::vector<std::pair<std::int64_t, std::int64_t>>> g_ticks;
     std::map<std::int64_t, std::vector<std::vector<ScriptOp>>>                g_scripts;
     std::map<std::int64_t, std::set<std::string>>                             g_faults;
-    std::map<std::int64_t, std::map<char, int>>                               g_fault_calls;
+    thread_local std::map<std::int64_t, std::map<char, int>>                  g_fault_calls;   // per run
     std::map<std::int64_t, SubSpec>                                           g_subs;
-    std::vector<std::string>                                                 g_log;
+    thread_local std::vector<std::string>                                    g_log;           // per run
     std::int64_t g_start = 1, g_end = 100;
     bool         g_cleanup = true;
 
     void logf(std::string s) { g_log.push_back(std::move(s)); }
+
+    const std::vector<std::vector<ScriptOp>> &scripts_of(std::int64_t id)
+    {
+        static const std::vector<std::vector<ScriptOp>> none;
+        auto it = g_scripts.find(id);
+        return it == g_scripts.end() ? none : it->second;
+    }
+
+    // read-only lookups (the tables are shared by concurrently running graphs: never insert)
+    const std::vector<std::pair<std::int64_t, std::int64_t>> &ticks_of(std::int64_t id)
+    {
+        static const std::vector<std::pair<std::int64_t, std::int64_t>> none;
+        auto it = g_ticks.find(id);
+        return it == g_ticks.end() ? none : it->second;
+    }
 
     std::string path_of(const GraphView &g);
     std::int64_t k2lbl(int k);
@@ -99,12 +115,12 @@ namespace
         static void start(Scalar<"lbl", Int> lbl, Scalar<"id", Int> id, NodeScheduler sched, State<Int> k)
         {
             k.set(Int{0});
-            auto &t = g_ticks[id.value()];
+            const auto &t = ticks_of(id.value());
             if (!t.empty()) { sched.schedule(dt(t[0].first)); }
         }
         static void eval(Scalar<"lbl", Int> lbl, Scalar<"id", Int> id, NodeScheduler sched, State<Int> k, Out<TS<Int>> out)
         {
-            auto &t = g_ticks[id.value()];
+            const auto &t = ticks_of(id.value());
             auto  i = static_cast<std::size_t>(k.get());
             const std::int64_t now = us(sched.now());
             while (i < t.size() && t[i].first <= now)
@@ -215,7 +231,7 @@ namespace
         static constexpr auto name = "h_script";
         static void start_common(const NodeView &node, Int id, const NodeScheduler &sched, State<Int> &k)
         {
-            auto &sc = g_scripts[id];
+            const auto &sc = scripts_of(id);
             std::optional<Int> emit;
             if (!sc.empty()) { run_script_ops(sc[0], sched, emit); }
             k.set(Int{1});
@@ -228,7 +244,7 @@ namespace
         static void eval(NodeView node, Scalar<"lbl", Int> lbl, Scalar<"id", Int> id, NodeScheduler sched, State<Int> k,
                          Out<TS<Int>> out)
         {
-            auto &sc = g_scripts[id.value()];
+            const auto &sc = scripts_of(id.value());
             const auto i = static_cast<std::size_t>(k.get());
             const std::string before = sched_q(sched);
             std::optional<Int> emit;
@@ -251,7 +267,7 @@ namespace
         static void eval(NodeView node, Scalar<"lbl", Int> lbl, Scalar<"id", Int> id, In<"a", TS<Int>, InputValidity::Unchecked> a,
                          NodeScheduler sched, State<Int> k, Out<TS<Int>> out)
         {
-            auto &sc = g_scripts[id.value()];
+            const auto &sc = scripts_of(id.value());
             const auto i = static_cast<std::size_t>(k.get());
             const std::string before = sched_q(sched);
             std::optional<Int> emit;
@@ -267,7 +283,8 @@ namespace
     {
         int &n = g_fault_calls[id][phase];
         ++n;
-        return g_faults[id].count(std::string(1, phase) + std::to_string(n)) > 0;
+        auto it = g_faults.find(id);
+        return it != g_faults.end() && it->second.count(std::string(1, phase) + std::to_string(n)) > 0;
     }
 
     // thrower: passes its input through (+1000), throws at scripted (phase, occurrence) points
@@ -362,8 +379,8 @@ namespace
     // (nested nodes carry no runtime scalars).
     constexpr int MAX_K = 6;
     constexpr const char *DYN_NAMES[MAX_K] = {"dyn_sub_0", "dyn_sub_1", "dyn_sub_2", "dyn_sub_3", "dyn_sub_4", "dyn_sub_5"};
-    std::map<int, std::int64_t> g_k2lbl;
-    int                         g_next_k = 0;
+    thread_local std::map<int, std::int64_t> g_k2lbl;
+    thread_local int                         g_next_k = 0;
 
     P interp_sub(Wiring &w, Int spec, std::vector<P> args)
     {
@@ -577,8 +594,31 @@ namespace
     }
 
     std::vector<NodeLine> g_root;
+    std::string           g_last;
 
-    std::string run_case()
+    std::string join_log()
+    {
+        std::string result;
+        for (std::size_t i = 0; i < g_log.size(); ++i) { result += (i ? " | " : "") + g_log[i]; }
+        return result;
+    }
+
+    // one run of an executor made from `eb`; the log of this run is appended to g_log
+    void run_once(GraphExecutorBuilder &eb)
+    {
+        GraphExecutorValue executor = eb.make_executor();
+        try
+        {
+            executor.view().run();
+            logf("run-ok");
+        }
+        catch (const std::exception &e) { logf("run-err " + classify(e.what())); }
+        logf("release");
+    }
+
+    // `reuse` > 0: the SAME executor builder makes `reuse` further executors, run one after the
+    // other; every run must produce the first run's trace (C07: builders are reusable recipes)
+    std::string run_case(int reuse = 0)
     {
         g_log.clear();
         g_fault_calls.clear();
@@ -591,30 +631,76 @@ namespace
             Env    env;
             interp_nodes(w, g_root, env, "-");
             GraphBuilder gb = std::move(w).finish();
-            {
-                std::string order;
-                logf("built nodes=" + std::to_string(gb.nodes().size()));
-            }
+            logf("built nodes=" + std::to_string(gb.nodes().size()));
             Obs obs;
             GraphExecutorBuilder eb;
             eb.graph_builder(std::move(gb)).mode(GraphExecutorMode::Simulation).start_time(dt(g_start)).end_time(dt(g_end));
             eb.add_lifecycle_observer(&obs);
             eb.cleanup_on_error(g_cleanup);
-            {
-                GraphExecutorValue executor = eb.make_executor();
-                try
-                {
-                    executor.view().run();
-                    logf("run-ok");
-                }
-                catch (const std::exception &e) { logf("run-err " + classify(e.what())); }
-                logf("release");
-            }
+            run_once(eb);
             logf("released");
+            if (reuse > 0)
+            {
+                const std::vector<std::string> first = g_log;
+                for (int k = 0; k < reuse; ++k)
+                {
+                    g_log.clear();
+                    g_fault_calls.clear();
+                    logf(first.front());
+                    run_once(eb);
+                    logf("released");
+                    if (g_log != first) { return "reuse-diff@" + std::to_string(k + 1) + ": " + join_log(); }
+                }
+                return "reuse-same";
+            }
         }
         catch (const std::exception &e) { logf("build-err " + classify(e.what())); }
-        for (std::size_t i = 0; i < g_log.size(); ++i) { result += (i ? " | " : "") + g_log[i]; }
-        return result;
+        return join_log();
+    }
+
+    // n executors of the same program, wired one after the other on this thread, then RUN
+    // concurrently, one thread each; all traces must equal a plain sequential run
+    std::string run_parallel(int n)
+    {
+        const std::string expect = run_case();
+        if (expect.find("build-err") != std::string::npos) { return "par-same"; }
+        struct Job { std::unique_ptr<Obs> obs; std::unique_ptr<GraphExecutorBuilder> eb; std::string head; std::string out; };
+        std::vector<Job> jobs(static_cast<std::size_t>(n));
+        for (auto &j : jobs)
+        {
+            g_k2lbl.clear();
+            g_next_k = 0;
+            Wiring w{WiringKind::TopLevel, WiringOptions{}};
+            Env    env;
+            interp_nodes(w, g_root, env, "-");
+            GraphBuilder gb = std::move(w).finish();
+            j.head = "built nodes=" + std::to_string(gb.nodes().size());
+            j.obs  = std::make_unique<Obs>();
+            j.eb   = std::make_unique<GraphExecutorBuilder>();
+            j.eb->graph_builder(std::move(gb)).mode(GraphExecutorMode::Simulation).start_time(dt(g_start)).end_time(dt(g_end));
+            j.eb->add_lifecycle_observer(j.obs.get());
+            j.eb->cleanup_on_error(g_cleanup);
+        }
+        const auto k2lbl_snapshot = g_k2lbl;
+        std::vector<std::thread> ts;
+        for (auto &j : jobs)
+        {
+            ts.emplace_back([&j, &k2lbl_snapshot] {
+                g_log.clear();
+                g_fault_calls.clear();
+                g_k2lbl = k2lbl_snapshot;
+                logf(j.head);
+                run_once(*j.eb);
+                logf("released");
+                j.out = join_log();
+            });
+        }
+        for (auto &t : ts) { t.join(); }
+        for (std::size_t i = 0; i < jobs.size(); ++i)
+        {
+            if (jobs[i].out != expect) { return "par-diff@" + std::to_string(i) + ": " + jobs[i].out; }
+        }
+        return "par-same";
     }
 
     std::vector<ScriptOp> parse_ops(const std::vector<std::string> &w, std::size_t &i)
@@ -708,7 +794,9 @@ int main()
                 (cur_sub != nullptr ? cur_sub->nodes : g_root).push_back(std::move(n));
                 std::cout << "ok\n";
             }
-            else if (op == "run") { std::cout << run_case() << "\n"; }
+            else if (op == "run") { g_last = run_case(); std::cout << g_last << "\n"; }
+            else if (op == "rerun") { std::cout << run_case(static_cast<int>(to_i(w.at(1)))) << "\n"; }
+            else if (op == "runpar") { std::cout << run_parallel(static_cast<int>(to_i(w.at(1)))) << "\n"; }
             else if (op[0] == '#') { std::cout << "#\n"; }
             else { std::cout << "bad-op\n"; }
         }
